@@ -2,12 +2,12 @@
      <id> s<caseseed> k<0|1> n<N> <node>*N : <op>*     (k1: GC keeps the digest references of live descriptors)
    node = <kind 0..5>,<subject|->,<succ.succ...|->  (kind: 0 blob 1 image 2 docker 3 index 4 dockerl 5 artifact)
    op = P<n> T<n>.<t> U<t> D<n> G R(eopen) F(oreign index + reopen) A<0|1> S<id>.<alg 0 sha256 1 sha512 2 sha384 3 other>.<valid>
-        V<0|1> (AutoSaveIndex)  I (SaveIndex)  Ke (GC cancelled before the index is rebuilt)
+        V<0|1> (AutoSaveIndex)  I (SaveIndex)  B<id> (Push of an undecodable manifest)  Ke (GC cancelled before the index is rebuilt)
         K<k>:<b<n>|s<id>>,... (GC cancelled in the sweep after k entries of the given directory order)
    Output: <id> then, per op, <op>=<res>/B:..../I:..../P:..../S:..../J:....  (see harness/cmd/c09; J = index.json). *)
 let ints_of sep s = if s = "-" || s = "" then [] else List.map int_of_string (String.split_on_char sep s)
 let join sep l = String.concat sep l
-let show_res r = match r with Ok -> "ok" | ENotFound -> "notfound" | EExists -> "exists" | EHang -> "hang" | ECanceled -> "canceled"
+let show_res r = match r with Ok -> "ok" | ENotFound -> "notfound" | EExists -> "exists" | EHang -> "hang" | ECanceled -> "canceled" | EOther -> "other"
 let show_disk d =
   let tags = List.sort compare (List.filter_map (fun (r, m) -> match r with RTag t -> Some (int_of_nat t, int_of_nat m) | _ -> None) d) in
   let digs = List.sort_uniq compare (List.filter_map (fun (r, m) -> match r with RDig _ -> Some (int_of_nat m) | _ -> None) d) in
@@ -65,6 +65,7 @@ let () =
             | 'S' -> (match ints_of '.' arg with [a; k; v] -> PO (OStray { s_id = nat_of_int a; s_alg = nat_of_int k; s_valid = (v = 1) }) | _ -> failwith "S")
             | 'V' -> PAutoSave (arg = "1")
             | 'I' -> PSave
+            | 'B' -> PPushBad (nat_of_int (int_of_string arg))
             | 'K' ->
               if arg = "e" then PGCCancel (true, [], O)
               else (match String.split_on_char ':' arg with
